@@ -1,14 +1,16 @@
 #!/bin/bash
-# Copy the "latest_check" results of a finished snapshot sweep (vp run <n>) back into /verif/seeded/*/meta.json.
+# Copy the "latest_check" results of a finished snapshot sweep (vp run <n>) back into /verif/seeded/*/meta.json —
+# only for the seeds that run actually swept (those named in its log).
 n=$1; src=/root/.vp/runs/$n/verif/seeded
-python3 - "$src" <<'P'
-import json,os,sys
-src=sys.argv[1]; dst='/verif/seeded'; k=0
-for sid in sorted(os.listdir(src)):
+python3 - "$src" "/root/.vp/runs/$n/log" <<'P'
+import json,os,re,sys
+src,log=sys.argv[1],sys.argv[2]; dst='/verif/seeded'; k=0
+swept=set(re.findall(r'^(C\d\d-\d+)\s+detected=', open(log).read(), flags=re.M))
+for sid in sorted(swept):
     a=os.path.join(src,sid,'meta.json'); b=os.path.join(dst,sid,'meta.json')
     if not (os.path.exists(a) and os.path.exists(b)): continue
     ma=json.load(open(a)); mb=json.load(open(b))
     if 'latest_check' in ma and ma['latest_check']!=mb.get('latest_check'):
         mb['latest_check']=ma['latest_check']; json.dump(mb,open(b,'w'),indent=1); k+=1
-print('updated',k)
+print('updated',k,'of',len(swept),'swept')
 P
